@@ -88,7 +88,30 @@ META["C18"] = {"files": ["utils.c", "value.c"], "functions": ["cif_analyze_strin
                "stubs": ["stubs/icu_str.c (exact ICU string helpers)"], "assumptions": ["malloc does not fail"],
                "outside": ["strings longer than the bound", "read-back of the recommended delimiter by the parser unless a C18_delim query is listed"]}
 
-REG = {"C20": c20, "C10": c10, "C18": c18}
+
+# ------------------------------------------------------------------------------------------ C09
+ICU_NORM_CHEAP = ["stubs/icu_str.c", "stubs/icu_norm_cheap.c"]
+
+
+def c09(tier):
+    qs = []
+    for (L, K) in (((8, 5), (4, 5)) if tier == "quick" else ((8, 7), (5, 7), (4, 6))):
+        for mode in ("func", "safety"):
+            qs.append(Q("C09_valid_L%d_K%d_%s" % (L, K, mode), "h09_valid.c", defs={"KLEN": K, "CIF_API_VERIF_LINE_LENGTH": L},
+                        extra=ICU_NORM_CHEAP, unwind=K + 3, mode=mode, replay_libs=ICU_LIBS, native_extra=["stubs/icu_norm_cheap.c"],
+                        bounds={"string": "<= %d units, full 16-bit alphabet" % K, "CIF_LINE_LENGTH (hook)": L},
+                        note="validity screening of codes / data names / table keys vs reference predicate"))
+    return qs
+
+
+META["C09"] = {"files": ["utils.c"], "functions": ["cif_normalize_name", "cif_normalize_item_name", "cif_normalize_table_index",
+                                                    "cif_is_valid_name", "cif_has_disallowed_chars", "cif_has_whitespace", "cif_normalize",
+                                                    "cif_unicode_normalize", "cif_fold_case"],
+               "stubs": ["stubs/icu_str.c (exact)", "stubs/icu_norm_cheap.c (identity NFD/NFC, ASCII case fold, ICU buffer protocol)"],
+               "assumptions": ["malloc does not fail", "CIF_LINE_LENGTH shrunk by hook: the code is parametric in the macro (argued, not proved)"],
+               "outside": ["behaviour of NFD/case-fold/NFC over the Unicode repertoire (ICU data)", "SQL comparison of keys"]}
+
+REG = {"C20": c20, "C10": c10, "C18": c18, "C09": c09}
 
 
 def for_property(pid, tier):
@@ -116,3 +139,10 @@ MANI["C18"] = {
             "reference computations written from cif.h, for all strings up to the stated length x both flags x length limits 8..2048.",
     "note": "strings <= 5..8 units (see evidence); ICU string helpers replaced by exact models (validated against real ICU in setup); "
             "permissive where cif.h is silent (blanks at end of string, VT as whitespace)"}
+MANI["C09"] = {
+    "text": "Bounded model checking of the real validity screening (cif_normalize_name/_item_name/_table_index, cif_is_valid_name, "
+            "cif_has_disallowed_chars, cif_has_whitespace) against a reference predicate written from the property text, for ALL strings of "
+            "16-bit units up to the bound with the line limit shrunk so both sides of the length boundary are covered; plus the "
+            "cif_normalize pipeline over the ICU buffer protocol, and (where listed in evidence) table/packet key matching.",
+    "note": "normalisation itself is ICU's: unorm_normalize/u_strFoldCase are replaced by models (identity + ASCII fold, or tables "
+            "generated from the real ICU over a finite alphabet); matching inside SQL is outside; C1 controls / U+FEFF undecided by the text are not asserted"}
